@@ -29,6 +29,10 @@ def witEffectfulCond : Node :=
 /-- `x = - -y;` -/
 def witNestedUnary : Node := wrapF (.assign "=" (.id "x") (.unop "-" (.unop "-" (.id "y"))))
 
+/-- `x = (int)(int) - -y;` (why `NoNestedUnary` removes ALL casts of the right-hand side) -/
+def witNestedUnaryCasts : Node :=
+  wrapF (.assign "=" (.id "x") (.cast (.cast (.unop "-" (.unop "-" (.id "y"))))))
+
 /-- `x = -(int)(y + z);` (accepted before the unary-operand repair; now rejected) -/
 def witUnaryOfCastExpr : Node :=
   wrapF (.assign "=" (.id "x") (.unop "-" (.cast (.binop "+" (.id "y") (.id "z")))))
@@ -40,13 +44,13 @@ def witIncDecOfConst : Node := wrapF (.assign "=" (.id "x") (.unop "++" (.const 
 def witIllShaped : Node := wrapF .typeDecl
 
 macro "cov_eval" : tactic => `(tactic|
-  simp [witEffectfulCond, witNestedUnary, witUnaryOfCastExpr, witIncDecOfConst, witIllShaped,
+  simp [witEffectfulCond, witNestedUnary, witNestedUnaryCasts, witUnaryOfCastExpr, witIncDecOfConst, witIllShaped,
     wrapF, coverage, covN, covList, covSlot, allowRhs, allowOperand, Node.isId, Node.isUnop,
     Node.isBinop, Node.isConst, Node.isCast, Node.rmCast1, Node.rmCast, Gen.binOps, Gen.uOps, bind,
     Except.bind, pure, Except.pure])
 
 macro "unmod_eval" : tactic => `(tactic|
-  simp [witNestedUnary, witIncDecOfConst, witIllShaped, wrapF,
+  simp [witNestedUnary, witNestedUnaryCasts, witIncDecOfConst, witIllShaped, wrapF,
     Spec.unmodellable, Spec.unmodellableL, Spec.desugar, Node.rmCast, Spec.describe, Node.cls])
 
 /-! the model accepts `if (x = y + z) { z = x + y; }` although the condition has an effect -/
@@ -59,6 +63,13 @@ example : Spec.unmodellable witNestedUnary = ["Assignment(rhs UnaryOp - of Unary
   unmod_eval
 example : ¬ NoNestedUnary witNestedUnary ∧
     NoIncDecOfConst witNestedUnary ∧ StmtShaped witNestedUnary := by decide
+
+/-! the same under two casts (casts of casts are transparent to the syntax check) -/
+example : coverage witNestedUnaryCasts = .ok (0, witNestedUnaryCasts) := by cov_eval
+example : Spec.unmodellable witNestedUnaryCasts = ["Assignment(rhs UnaryOp - of UnaryOp)"] := by
+  unmod_eval
+example : ¬ NoNestedUnary witNestedUnaryCasts ∧
+    NoIncDecOfConst witNestedUnaryCasts ∧ StmtShaped witNestedUnaryCasts := by decide
 
 /-! `x = -(int)(y + z)` (formerly accepted: the unary operand is now tested with its casts
     removed) is charged and removed by the syntax check -/
